@@ -151,6 +151,10 @@ def run(tier, seed):
                 for pre in ([], ['S-'], ['E0']):
                     seqs.append(pre + ['P%d' % i, 'G', 'P%d' % j, 'G', 'G', 'W'])
                     seqs.append(pre + ['P%d' % i, 'W', 'S+', 'P%d' % j, 'W', 'G'])
+        for c1 in setters:          # a setting set, used, then another setting set twice in a row (the second call must not cancel the first)
+            for c2 in setters:
+                seqs.append(['P0', c1, 'G', c2, c2, 'G'])
+                seqs.append(['P2', c1, c1, 'W', c2, c2, 'G'])
         for q1 in ('G', 'W'):       # the safety setting toggled around an unsafe workbook without touching the path
             for q2 in ('G', 'W'):
                 seqs.append(['S-', 'P2', q1, 'S+', q2])
@@ -174,10 +178,39 @@ def run(tier, seed):
             cases.append((req, ' '.join(outs), {'sequence': ' '.join(seq)}))
             chk.count('len:%d' % len(seq))
         chk.judge('facade-sequences', cases, sample_cap=4)
+        overwrite_law(chk, m, paths, d, table)
         determinism(chk, tier, paths, d)
     finally:
         shutil.rmtree(d, ignore_errors=True)
     return chk.finish()
+
+
+def overwrite_law(chk, m, paths, d, table):
+    """the file at the path is replaced by another workbook and the same path is set again: the next result is the new workbook's"""
+    fresh = {(pi, ei, s): r for pi, ei, s, r in table}
+    for a, b in ((0, 1), (1, 3), (3, 0), (0, 3)):
+        for entry in (None, 0):
+            x = os.path.join(d, 'same_path.xlsx')
+            shutil.copyfile(paths[a], x)
+            p = m['Parser']().set_excel_file_path(x)
+            if entry is not None:
+                p.set_entrypoint_cell(m['Cell'](*ENTRIES[entry]))
+            outs = []
+            for src in (a, b):
+                shutil.copyfile(paths[src], x)
+                p.set_excel_file_path(x)
+                if entry is not None and src == b:
+                    p.set_entrypoint_cell(m['Cell'](*ENTRIES[entry]))       # an equal entry cell, set again
+                try:
+                    outs.append(sha(p.get_translation()))
+                except Exception as e:  # noqa
+                    outs.append('E' + core.exc_class(e))
+            want = [fresh[(a, 0 if entry is None else entry + 1, 1)], fresh[(b, 0 if entry is None else entry + 1, 1)]]
+            chk.count('law:overwritten-file')
+            chk.seen(('overwrite', a, b, entry))
+            if outs != want:
+                chk.violation({'why': 'after the file at the path was replaced and the same path (and an equal entry cell) set again, the result is not the translation of the new '
+                                      'workbook', 'first_workbook': a, 'second_workbook': b, 'entry': entry, 'impl': outs, 'fresh': want, 'stream': 'overwritten-file'})
 
 
 def determinism(chk, tier, paths, d):
@@ -199,6 +232,21 @@ def determinism(chk, tier, paths, d):
             name, mode, h = line.split()
             chk.seen(('det', name, mode, hs, nwarm))
             results.setdefault((name, mode), {}).setdefault(h, []).append('hashseed=%s warm=%d' % (hs, nwarm))
+    # cold start: the first translations of a fresh process are made by four threads at once
+    cold = os.path.join(core.VERIF, 'harness', 'c09_cold.py')
+    cjobs = [subprocess.Popen(['/venv/bin/python', cold, core.REPO] + [paths[0], paths[1], paths[3]], stdout=subprocess.PIPE, stderr=subprocess.DEVNULL, text=True,
+                              env=dict(env_base, PYTHONHASHSEED=str(k))) for k in range(6 if tier == 'quick' else 40)]
+    cold_hashes = {}
+    for p in cjobs:
+        out, _ = p.communicate(timeout=600)
+        for line in out.strip().splitlines():
+            name, mode, h, where = line.split()
+            chk.count('determinism:cold-thread')
+            cold_hashes.setdefault((name, mode), {}).setdefault(h, []).append(where)
+    for key, hs in cold_hashes.items():
+        if len(hs) > 1:
+            chk.violation({'why': 'translations made by several threads right after the start of a process are not identical', 'workbook': key[0],
+                           'variants': {h: w[:3] for h, w in hs.items()}, 'stream': 'determinism'})
     # threads in this process
     def work(out, idx):
         for r in range(6 if tier == 'quick' else 40):
